@@ -373,7 +373,14 @@ def check(prop, tier, seed, replay=None):
     cov["scripts"]["generated"] = len(gen_named)
     cov["scripts"]["witnesses"] = len(wit)
 
-    allscripts = [(n, o) for n, o, _, _ in model_scripts] + gen_named + wit
+    # the scenarios of the repository's own unit tests, validated with this property's predicates
+    repo_named = []
+    if prop in ("C03", "C04", "C06", "C07", "C09", "C14"):
+        repo_named = [("r-%03d" % k, o) for k, o in enumerate(gen.repo_scenarios())]
+        if prop in ("C03", "C04"):
+            repo_named += [("rn-%03d" % k, o) for k, o in enumerate(gen.repo_scenarios("noise"))]
+    cov["scripts"]["repository_test_scenarios"] = len(repo_named)
+    allscripts = [(n, o) for n, o, _, _ in model_scripts] + gen_named + wit + repo_named
     pairs = run.run_scripts(allscripts, wd)
     bypath = {sp: tp for sp, tp in pairs}
 
